@@ -6,7 +6,7 @@ use std::fmt::Write;
 use vcore::engine::{hash_of, CaseResult, Kind, Stats, Sub};
 use vcore::gen::{item, mutate, small_shapes, FramedSpace, ItemCfg};
 use vcore::item::W;
-use vcore::{ensure, fail, Gen};
+use vcore::{ensure, Gen};
 
 /// A `fmt::Write` sink that refuses to grow beyond `limit` bytes.
 struct Bounded { out: String, limit: usize, refused: bool }
